@@ -366,6 +366,15 @@ def spec_type(t) -> str:
 
 def method_mutates(cls, fdef, tree, seen=()) -> bool:
     """syntactic: does the method (or a translated method it calls on `self`) change the object state?"""
+    if cls.get('clsprep') and tree is not None:
+        # round 3b: judged on the method as the class pre-pass leaves it (a store through a local alias of an
+        # attribute is a store into the attribute)
+        import py2lean_clsprep
+        cache = cls.setdefault('_prep_cache', {})
+        key = (id(tree), fdef.name, fdef.lineno)
+        if key not in cache:
+            cache[key] = py2lean_clsprep.run(fdef, tree, {'cls': cls})
+        fdef = cache[key]
     self_name = fdef.args.args[0].arg
     for n in ast.walk(fdef):
         targets = []
